@@ -99,7 +99,7 @@ class NPool:
             return 25.0
         if r < 0.2:
             return float("%.3g" % (10 ** self.rng.uniform(-4, 0)))
-        return round(self.rng.uniform(0.01, 25), self.rng.randint(1, 5))
+        return max(round(self.rng.uniform(0.01, 25), self.rng.randint(1, 5)), 0.01)
 
     def wavelength(self, atoms=()):
         """in [0.05, 50]; for table atoms also exact nodes, both clamped ends, interior points"""
@@ -193,6 +193,86 @@ def run_call(call, seq, density=None, natural_density=None, wkind=0, vector=Fals
     atom = seq[0][1]
     fn = atom.neutron.scattering if call == 2 else atom.neutron.sld
     return attempt(fn, **kw)
+
+
+# ---------------------------------------------------------------- Formula objects carrying their own density
+TAGGED = ["H2O@1.2", "CaCO3@2.71", "C6H12O6@1.54", "D2O@1.1n", "SiO2@2.2", "Gd2O3@7.41", "B4C@2.52", "NaCl@2.16n",
+          "C3H4H[1]NO@1.29n", "Fe{2+}SO4@3.65"]
+
+
+def formula_object(rng, pool, kind=None):
+    """(Formula object that already has a density, how it was built)"""
+    from periodictable import formulas as F
+    kind = kind or rng.choice(["density", "density", "natural", "tag", "single", "mix_weight", "mix_volume", "rmul"])
+    if kind == "density":
+        seq = pool.nested(rng.randint(0, 2))
+        rho = pool.density()
+        return F.formula(seq, density=rho), "formula(%r, density=%r)" % (seq, rho)
+    if kind == "natural":
+        seq = pool.nested(rng.randint(0, 2))
+        rho = pool.density()
+        return F.formula(seq, natural_density=rho), "formula(%r, natural_density=%r)" % (seq, rho)
+    if kind == "tag":
+        t = rng.choice(TAGGED)
+        return F.formula(t), "formula(%r)" % t
+    if kind == "single":
+        a = rng.choice([x for x in pool.with_sld if x.density is not None])
+        return F.formula(a), "formula(%r)" % (a,)
+    if kind == "rmul":
+        t = rng.choice(TAGGED)
+        k = rng.choice([2, 3, 0.5])
+        return k * F.formula(t), "%r*formula(%r)" % (k, t)
+    a, b = rng.sample(TAGGED, 2)
+    qa, qb = rng.randint(1, 9), rng.randint(1, 9)
+    if kind == "mix_weight":
+        return F.mix_by_weight(a, qa, b, qb), "mix_by_weight(%r, %r, %r, %r)" % (a, qa, b, qb)
+    return F.mix_by_volume(a, qa, b, qb), "mix_by_volume(%r, %r, %r, %r)" % (a, qa, b, qb)
+
+
+def run_call_formula(call, fobj, density=None, natural_density=None, wkind=0, vector=False, wvals=(), as_list=False):
+    """call 0/1: nsf.neutron_scattering / neutron_sld on the Formula object with the keywords;
+    call 4: fobj.neutron_sld(...)"""
+    kw = {}
+    if wkind:
+        if vector:
+            arg = [float(x) for x in wvals] if as_list else np.array([float(x) for x in wvals])
+        else:
+            arg = float(wvals[0])
+        kw["wavelength" if wkind == 1 else "energy"] = arg
+    if call == 4:
+        return attempt(fobj.neutron_sld, **kw)
+    fn = nsf.neutron_scattering if call == 0 else nsf.neutron_sld
+    if density is not None:
+        kw["density"] = density
+    if natural_density is not None:
+        kw["natural_density"] = natural_density
+    return attempt(fn, fobj, **kw)
+
+
+def callf_term(call, fobj, density, natural_density, wkind, vector, wvals, res):
+    return "(CCallF %d %s %s %s %s %d %s %s %s)" % (
+        call, struct_term(fobj.structure), optq_term(fobj.density), optq_term(density), optq_term(natural_density), wkind,
+        "true" if vector else "false", qlist(wvals), enc_result(res))
+
+
+def natural_ratio_of(atoms):
+    num = den = 0.0
+    for a, n in atoms.items():
+        b = base_of(a)
+        el = b.element if core.isisotope(b) else b
+        num += n * (el.mass - constants.electron_mass * getattr(a, "charge", 0))
+        den += n * a.mass
+    return num / den
+
+
+def documented_density(fobj, density, natural_density):
+    """density= is the mass density, natural_density= converts through the natural mass ratio; only
+    without both the formula's own density is used"""
+    if natural_density is not None:
+        return natural_density / natural_ratio_of(count_struct(fobj.structure))
+    if density is not None:
+        return density
+    return fobj.density
 
 
 # ---------------------------------------------------------------- the documented equations, independently
